@@ -1967,6 +1967,23 @@ def analyse(repo=None):
         row.site, row.status, row.live_w, row.init_w, row.readers, row.entries = s, status, live_w, init_w, readers, ents
         rows.append(row)
     res.rows = rows
+    # generated properties: every application of a make_prop_* factory that declares `types`
+    res.props = []
+    closure_by_app = {r.site.extra["app"]: r.site for r in rows if r.site.kind == "KClosure"}
+    for f in db.funcs:
+        if f.mod.ext or f.kind != "func" or f.parent is not None or not f.name.startswith("make_prop_") \
+                or "types" not in f.params:
+            continue
+        for name, init, mod, ln in factory_applications(an, f, "types") or []:
+            if init is None or (isinstance(init, ast.Constant) and init.value is None):
+                continue          # no setter is generated
+            cs_ = closure_by_app.get(name)
+            latching = bool(cs_ is not None and cs_.extra.get("live_write"))
+            tys = [] if latching else types_of_decl(init, name)
+            empty = (isinstance(init, ast.Tuple) and not init.elts) or \
+                (isinstance(init, ast.Call) and dotted(init.func) == "tuple" and not init.args)
+            res.props.append({"name": name, "owner": name.split(".")[0], "latching": latching, "types": tys,
+                              "self_typed": bool(empty), "site": cs_})
     # copy hooks
     res.copy_hooks = sorted(f.qual for f in db.funcs if not f.mod.ext and f.name in
                             ("__deepcopy__", "__copy__", "__getstate__", "__setstate__", "__reduce__",
@@ -2106,27 +2123,24 @@ def emit(res):
     w("")
     # generated properties
     props = []
-    for r in res.rows:
-        s = r.site
-        if s.kind == "KClosure" and s.extra.get("init_node") is not None and "make_prop" in s.owner.name:
-            app = s.extra["app"]
-            latching = bool(s.extra["live_write"])
-            tys = [] if latching else types_of_decl(s.extra["init_node"], app)
-            props.append((app, app.split(".")[0], latching, tys, s.id))
+    for g in res.props:
+        props.append((g["name"], g["owner"], g["latching"], g["types"], g["site"].id if g["site"] is not None else None,
+                      g["self_typed"]))
     w("Definition entries : list entry := [")
     erows = []
     for en in sorted(entry_rows):
         erows.append("  mk_entry %s %s %s" % (cs(en), entry_kind_of.get(en, "EkCall"),
                      clist(["(%d, %s, %s)" % (a, b, "true" if c else "false") for a, b, c in sorted(entry_rows[en])])))
-    for app, owner, latching, tys, sid in props:
+    for app, owner, latching, tys, sid, st in props:
         erows.append("  mk_entry %s EkGenSet %s" % (cs("set:" + app), "[(%d, FDirty, true)]" % sid if latching else "[]"))
     w(";\n".join(erows))
     w("].")
     w("")
     w("Definition props : list gprop := [")
-    w(";\n".join("  mk_gprop %s %s %s %s (Some %d)" % (cs(a), cs(o), "true" if l else "false",
-                                                       clist([cs(t) for t in tys]), sid)
-                 for a, o, l, tys, sid in props))
+    w(";\n".join("  mk_gprop %s %s %s %s %s %s" % (cs(a), cs(o), "true" if l else "false",
+                                                   clist([cs(t) for t in tys]), "true" if st else "false",
+                                                   "(Some %d)" % sid if sid is not None else "None")
+                 for a, o, l, tys, sid, st in props))
     w("].")
     w("")
     w("Definition classes : list (string * list string) := [")
